@@ -1,9 +1,12 @@
 (* Props/C13.v — a failed command never creates or clobbers the output file prematurely.
 
-   Model: Model/Cli.v — the command layer of src/cli/src/commands.rs over an explicit world (file system = list of
-   (path, content), environment variables, stdin).  The output given with -o F is commands.rs::OnDemandFile: F is
+   Model: Model/Cli.v — the command layer of src/cli/src/commands.rs over an explicit world: a TREE of regular files and
+   directories under canonical paths, a current directory, environment variables, stdin.  Path strings are resolved
+   component by component ('/', ".", "..", empty components, trailing slash, absolute or relative to the current directory);
+   fs_get l p is the regular file seen through the string p, fs_target l p the canonical path p denotes, fs_create_target l p
+   where File::create(p) would put a file (None: it fails).  The output given with -o F is commands.rs::OnDemandFile: F is
    created/truncated by the FIRST write or flush CALL of the library run; so
-       new_fs = fs   iff   the run made no write/flush call          (sink_touched = false)
+       new_fs = fs   iff   the run made no write/flush call          (sink_touched = false)   [or F cannot be created]
    and otherwise F holds exactly what the sink accepted (w_out).  "For every prior state of the output path (absent,
    present with any content)" is the quantification over the world w.  Every theorem quantifies over the
    primitives P and over the keyring functions (validators, unlock, lock, decode/encode of public keys, UTF-8 codec):
@@ -21,15 +24,31 @@
      (4) late failure: the path holds exactly what the sink accepted, exit 1; and (chained with the chunk-layer
          authenticity theorem) that content is a prefix of the honest plaintext under the no-forgery premise.
      (5) key generate: any failure leaves the file system alone.
+     (6) THE TREE.  (a) The -o path cannot be created — missing parent directory, a directory at the path, a regular file
+         used as a directory, the empty string, a trailing slash (C13_create_fails_iff) — all five commands fail and
+         change NOTHING: no file, no directory (C13_bad_output_leaves_fs).  (b) Whatever a command does, the only node of
+         the tree that can change is the one the -o path denotes; no directory is ever created or removed; no path string
+         changes its meaning (C13_commands_change_only_output).  (c) The input path is a directory: File::open succeeds and
+         the first read fails; the two DEcryptors read first and leave everything as it was
+         (C13_dir_input_decryptors_leave_fs); the two ENcryptors have by then written and flushed their header: the
+         command fails with exit 1 and the -o file holds exactly the 36-byte (password mode) / 132-byte (key mode)
+         header, a former content of that file is gone (C13_dir_input_pass_encrypt_leaves_header,
+         C13_dir_input_encrypt_leaves_header).  "The input is a directory" is not in the property's list of causes; the
+         theorems state what the program does, DESIGN §7.3 discusses it.  (d) One file under two names: when the input
+         path and the -o path do not denote the same file, the input file is unchanged after every command
+         (C13_input_file_survives); when they do, and the two strings differ, the program's string comparison does not
+         notice, the command SUCCEEDS and the input is overwritten (C13_alias_caveat — a proved witness; an observation
+         about a successful run, outside C13's text, which is about failing commands).
    PARTIAL / not covered: "bad arguments" (usage errors of main.rs) are in Props/C12.v (C12_usage_error_leaves_fs);
-   real file-system failures (permissions, full disk, File::create errors) are outside the model's world;
+   file-system failures other than a path that cannot be created (permissions, full disk), symbolic links, devices and
+   FIFOs are outside the model's world (the direct oracles of the check run them on the real program);
    that a WRONG password produces no successful open is the AEAD's security, a premise here ("no successful open in
    the run's log"), exercised concretely by the harness.  Exit code for key decrypt in (3) is "not 0" unless the
    library returned an error value (then 1): a panic inside the handshake code would be 101. *)
 From Kestrel Require Import Bytes Outcome IO Prims.
 From Kestrel.gen Require Import Extracted.
-From Kestrel.Model Require Import AeadWrap Chunks Noise Files EventPreds KeyringText Cli.
-From Kestrel.Proofs Require Import ChunksAuth CliFacts Combine2Fail Combine2Cli.
+From Kestrel.Model Require Import AeadWrap Chunks Noise Files EventPreds KeyringText Getopts CliParse Cli CliStubs CliGlue.
+From Kestrel.Proofs Require Import ChunksAuth CliFs CliFacts CliTree CliAlias Combine2Fail Combine2Cli.
 Local Open Scope N_scope.
 
 (* (1) every early failure, all five writing commands *)
@@ -175,18 +194,22 @@ Theorem C13_encrypt_dh_zero_leaves_fs :
 Proof. exact encrypt_cli_dh_zero_leaves_fs. Qed.
 Print Assumptions C13_encrypt_dh_zero_leaves_fs.
 
-(* (4) a write/flush call was made: F holds exactly what the sink accepted, no other path changed, and a library
-   error gives exit code 1 (decrypt commands; the encrypt commands are the same statement in CliFacts) *)
+(* (4) a write/flush call was made on a file that can be created (canonical path cp): F holds exactly what the sink
+   accepted; every path string that does not denote F's file shows what it showed; no node other than cp changed; and a
+   library error gives exit code 1 *)
 Theorem C13_decrypt_late_failure_keeps_prefix :
   forall (P : prims) (pk_ok sk_ok : text -> bool) (unlock : text -> bytes -> outcome kerr bytes)
          (decode_pk : text -> outcome kerr bytes) (encode_pk : bytes -> text) (utf8_decode : bytes -> option text)
-         (w : world) (o : dec_opts) (j : dec_job) (F : text),
+         (w : world) (o : dec_opts) (j : dec_job) (F : text) (cp : cpath),
   decrypt_plan pk_ok sk_ok unlock decode_pk utf8_decode w o = inr j -> do_outfile o = Some F ->
+  fs_create_target (fs w) F = Some cp ->
   sink_touched (snd (run_dec P j)) = true ->
   fs_get (new_fs (cmd_decrypt P pk_ok sk_ok unlock decode_pk encode_pk utf8_decode w o)) F
     = Some (w_out (wtr (snd (run_dec P j)))) /\
-  (forall q, q <> F -> fs_get (new_fs (cmd_decrypt P pk_ok sk_ok unlock decode_pk encode_pk utf8_decode w o)) q
-                       = fs_get (fs w) q) /\
+  (forall q, fs_target (fs w) q <> fs_target (fs w) F ->
+     fs_get (new_fs (cmd_decrypt P pk_ok sk_ok unlock decode_pk encode_pk utf8_decode w o)) q = fs_get (fs w) q) /\
+  (forall cq, cq <> cp ->
+     node_at (new_fs (cmd_decrypt P pk_ok sk_ok unlock decode_pk encode_pk utf8_decode w o)) cq = node_at (fs w) cq) /\
   (forall e, fst (run_dec P j) = Err e ->
      exit_code (cmd_decrypt P pk_ok sk_ok unlock decode_pk encode_pk utf8_decode w o) = 1 /\
      status (cmd_decrypt P pk_ok sk_ok unlock decode_pk encode_pk utf8_decode w o) = fin_dec encode_pk (dj_keys j) (Err e)).
@@ -194,10 +217,12 @@ Proof. exact decrypt_late_failure_keeps_prefix. Qed.
 Print Assumptions C13_decrypt_late_failure_keeps_prefix.
 
 Theorem C13_pass_decrypt_late_failure_keeps_prefix :
-  forall (P : prims) (w : world) (o : pw_opts) (j : pw_job) (F : text),
-  pass_decrypt_plan w o = inr j -> po_outfile o = Some F -> sink_touched (snd (run_pdec P j)) = true ->
+  forall (P : prims) (w : world) (o : pw_opts) (j : pw_job) (F : text) (cp : cpath),
+  pass_decrypt_plan w o = inr j -> po_outfile o = Some F -> fs_create_target (fs w) F = Some cp ->
+  sink_touched (snd (run_pdec P j)) = true ->
   fs_get (new_fs (cmd_pass_decrypt P w o)) F = Some (w_out (wtr (snd (run_pdec P j)))) /\
-  (forall q, q <> F -> fs_get (new_fs (cmd_pass_decrypt P w o)) q = fs_get (fs w) q) /\
+  (forall q, fs_target (fs w) q <> fs_target (fs w) F -> fs_get (new_fs (cmd_pass_decrypt P w o)) q = fs_get (fs w) q) /\
+  (forall cq, cq <> cp -> node_at (new_fs (cmd_pass_decrypt P w o)) cq = node_at (fs w) cq) /\
   (forall e, fst (run_pdec P j) = Err e ->
      exit_code (cmd_pass_decrypt P w o) = 1 /\ status (cmd_pass_decrypt P w o) = fin_pdec (Err e)).
 Proof. exact pass_decrypt_late_failure_keeps_prefix. Qed.
@@ -206,13 +231,16 @@ Print Assumptions C13_pass_decrypt_late_failure_keeps_prefix.
 Theorem C13_encrypt_late_failure_keeps_prefix :
   forall (P : prims) (pk_ok sk_ok : text -> bool) (unlock : text -> bytes -> outcome kerr bytes)
          (decode_pk : text -> outcome kerr bytes) (utf8_decode : bytes -> option text)
-         (w : world) (o : enc_opts) (fpk fe : bytes) (j : enc_job) (F : text),
+         (w : world) (o : enc_opts) (fpk fe : bytes) (j : enc_job) (F : text) (cp : cpath),
   encrypt_plan pk_ok sk_ok unlock decode_pk utf8_decode w o = inr j -> eo_outfile o = Some F ->
+  fs_create_target (fs w) F = Some cp ->
   sink_touched (snd (run_enc P fpk fe j)) = true ->
   fs_get (new_fs (cmd_encrypt P pk_ok sk_ok unlock decode_pk utf8_decode w o fpk fe)) F
     = Some (w_out (wtr (snd (run_enc P fpk fe j)))) /\
-  (forall q, q <> F -> fs_get (new_fs (cmd_encrypt P pk_ok sk_ok unlock decode_pk utf8_decode w o fpk fe)) q
-                       = fs_get (fs w) q) /\
+  (forall q, fs_target (fs w) q <> fs_target (fs w) F ->
+     fs_get (new_fs (cmd_encrypt P pk_ok sk_ok unlock decode_pk utf8_decode w o fpk fe)) q = fs_get (fs w) q) /\
+  (forall cq, cq <> cp ->
+     node_at (new_fs (cmd_encrypt P pk_ok sk_ok unlock decode_pk utf8_decode w o fpk fe)) cq = node_at (fs w) cq) /\
   (forall e, fst (run_enc P fpk fe j) = Err e ->
      exit_code (cmd_encrypt P pk_ok sk_ok unlock decode_pk utf8_decode w o fpk fe) = 1 /\
      status (cmd_encrypt P pk_ok sk_ok unlock decode_pk utf8_decode w o fpk fe) = SEncryptFailed e).
@@ -220,17 +248,20 @@ Proof. exact encrypt_late_failure_keeps_prefix. Qed.
 Print Assumptions C13_encrypt_late_failure_keeps_prefix.
 
 Theorem C13_pass_encrypt_late_failure_keeps_prefix :
-  forall (P : prims) (w : world) (o : pw_opts) (salt : bytes) (j : pw_job) (F : text),
-  pass_encrypt_plan w o salt = inr j -> po_outfile o = Some F -> sink_touched (snd (run_penc P salt j)) = true ->
+  forall (P : prims) (w : world) (o : pw_opts) (salt : bytes) (j : pw_job) (F : text) (cp : cpath),
+  pass_encrypt_plan w o salt = inr j -> po_outfile o = Some F -> fs_create_target (fs w) F = Some cp ->
+  sink_touched (snd (run_penc P salt j)) = true ->
   fs_get (new_fs (cmd_pass_encrypt P w o salt)) F = Some (w_out (wtr (snd (run_penc P salt j)))) /\
-  (forall q, q <> F -> fs_get (new_fs (cmd_pass_encrypt P w o salt)) q = fs_get (fs w) q) /\
+  (forall q, fs_target (fs w) q <> fs_target (fs w) F -> fs_get (new_fs (cmd_pass_encrypt P w o salt)) q = fs_get (fs w) q) /\
+  (forall cq, cq <> cp -> node_at (new_fs (cmd_pass_encrypt P w o salt)) cq = node_at (fs w) cq) /\
   (forall e, fst (run_penc P salt j) = Err e ->
      exit_code (cmd_pass_encrypt P w o salt) = 1 /\ status (cmd_pass_encrypt P w o salt) = SEncryptFailed e).
 Proof. exact pass_encrypt_late_failure_keeps_prefix. Qed.
 Print Assumptions C13_pass_encrypt_late_failure_keeps_prefix.
 
 (* (4') chained with the authenticity theorem (C03): with -o F, for ANY outcome of password decrypt, either the file
-   system is unchanged or the input has a complete header (magic, 32-byte salt) and, for every honest chunk list
+   system is unchanged or the bytes fed to the library (pdec_fed = the input's bytes, unless input and output are one
+   file) have a complete header (magic, 32-byte salt) and, for every honest chunk list
    such that no successful open of the run is a forgery under the derived key, F holds a PREFIX of the honest
    plaintext — all of it if the command succeeded; no other path changed; a library error gives exit 1 *)
 Theorem C13_pass_decrypt_output_is_authenticated_prefix :
@@ -239,8 +270,8 @@ Theorem C13_pass_decrypt_output_is_authenticated_prefix :
   pass_decrypt_plan w o = inr j -> po_outfile o = Some F ->
   new_fs (cmd_pass_decrypt P w o) = fs w
   \/
-  (exists salt rest, length salt = 32%nat /\ pj_input j = x_pass_file_magic ++ salt ++ rest /\
-     (forall q, q <> F -> fs_get (new_fs (cmd_pass_decrypt P w o)) q = fs_get (fs w) q) /\
+  (exists salt rest, length salt = 32%nat /\ pdec_fed P j = x_pass_file_magic ++ salt ++ rest /\
+     (forall q, fs_target (fs w) q <> fs_target (fs w) F -> fs_get (new_fs (cmd_pass_decrypt P w o)) q = fs_get (fs w) q) /\
      (forall e, fst (run_pdec P j) = Err e -> exit_code (cmd_pass_decrypt P w o) = 1) /\
      forall chunks,
        no_forgery P (kdf P (pj_pw j) salt) x_pass_file_magic chunks (log (snd (run_pdec P j))) ->
@@ -258,10 +289,10 @@ Theorem C13_decrypt_output_is_authenticated_prefix :
   decrypt_plan pk_ok sk_ok unlock decode_pk utf8_decode w o = inr j -> do_outfile o = Some F ->
   new_fs (cmd_decrypt P pk_ok sk_ok unlock decode_pk encode_pk utf8_decode w o) = fs w
   \/
-  (exists msg rest payload spk hh, length msg = 128%nat /\ dj_input j = x_prologue ++ msg ++ rest /\
+  (exists msg rest payload spk hh, length msg = 128%nat /\ dec_fed P j = x_prologue ++ msg ++ rest /\
      noise_decrypt P (dj_r j) (dj_rpk j) x_prologue msg = Ok (payload, spk, hh) /\
-     (forall q, q <> F -> fs_get (new_fs (cmd_decrypt P pk_ok sk_ok unlock decode_pk encode_pk utf8_decode w o)) q
-                          = fs_get (fs w) q) /\
+     (forall q, fs_target (fs w) q <> fs_target (fs w) F ->
+        fs_get (new_fs (cmd_decrypt P pk_ok sk_ok unlock decode_pk encode_pk utf8_decode w o)) q = fs_get (fs w) q) /\
      (forall e, fst (run_dec P j) = Err e ->
         exit_code (cmd_decrypt P pk_ok sk_ok unlock decode_pk encode_pk utf8_decode w o) = 1) /\
      forall chunks,
@@ -286,3 +317,161 @@ Theorem C13_gen_key_failed_leaves_fs :
   stdout (cmd_gen_key P lock encode_pk utf8_decode utf8_encode w o sk salt) = [].
 Proof. exact gen_key_failed_leaves_fs. Qed.
 Print Assumptions C13_gen_key_failed_leaves_fs.
+
+(* ====================================================================================== *)
+(* (6) the tree: output paths that cannot be created, directory inputs, one file under two names *)
+(* ====================================================================================== *)
+
+(* (6a) where File::create fails: the string does not resolve (empty, a missing or non-directory component, a
+   trailing slash on something that is not a directory) or it names a directory *)
+Theorem C13_create_fails_iff :
+  forall (l : fsys) (p : text),
+  fs_create_target l p = None <-> (resolve l p = None \/ exists cp, resolve l p = Some (cp, Some NDir)).
+Proof. exact create_fails_iff. Qed.
+Print Assumptions C13_create_fails_iff.
+
+(* the empty string never resolves; a path THROUGH an absent name or through a regular file never resolves *)
+Theorem C13_unresolvable_paths :
+  (forall l, resolve l [] = None) /\
+  (forall l d c rest md, node_at l (d ++ [c]) = None -> rest <> [] ->
+     text_eqb c s_dot = false -> text_eqb c s_dotdot = false -> walk l d (c :: rest) md = None) /\
+  (forall l d c x rest md, node_at l (d ++ [c]) = Some (NFile x) -> rest <> [] ->
+     text_eqb c s_dot = false -> text_eqb c s_dotdot = false -> walk l d (c :: rest) md = None).
+Proof. exact (conj resolve_empty (conj walk_missing_dir walk_through_file)). Qed.
+Print Assumptions C13_unresolvable_paths.
+
+(* all five writing commands: the -o path cannot be created => new_fs = fs (no file, no directory), empty stdout, no
+   success, exit code not 0 *)
+Theorem C13_bad_output_leaves_fs :
+  forall (P : prims) (pk_ok sk_ok : text -> bool) (unlock : text -> bytes -> outcome kerr bytes)
+         (lock : bytes -> bytes -> bytes -> text) (decode_pk : text -> outcome kerr bytes) (encode_pk : bytes -> text)
+         (utf8_decode : bytes -> option text) (utf8_encode : text -> bytes),
+  (forall w o fpk fe F, eo_outfile o = Some F -> fs_create_target (fs w) F = None ->
+     failed_clean w (cmd_encrypt P pk_ok sk_ok unlock decode_pk utf8_decode w o fpk fe)) /\
+  (forall w o F, do_outfile o = Some F -> fs_create_target (fs w) F = None ->
+     failed_clean w (cmd_decrypt P pk_ok sk_ok unlock decode_pk encode_pk utf8_decode w o)) /\
+  (forall w o salt F, po_outfile o = Some F -> fs_create_target (fs w) F = None ->
+     failed_clean w (cmd_pass_encrypt P w o salt)) /\
+  (forall w o F, po_outfile o = Some F -> fs_create_target (fs w) F = None -> failed_clean w (cmd_pass_decrypt P w o)) /\
+  (forall w o sk salt F, go_outfile o = Some F -> fs_create_target (fs w) F = None ->
+     failed_clean w (cmd_gen_key P lock encode_pk utf8_decode utf8_encode w o sk salt)).
+Proof. exact bad_output_leaves_fs. Qed.
+Print Assumptions C13_bad_output_leaves_fs.
+
+(* (6b) every command, every outcome: only the node the -o path denotes can change; every path string that does not
+   denote it shows the same bytes; no path string changes its meaning (so no directory was created or removed); the
+   current directory stays *)
+Theorem C13_commands_change_only_output :
+  forall (P : prims) (pk_ok sk_ok : text -> bool) (unlock : text -> bytes -> outcome kerr bytes)
+         (lock : bytes -> bytes -> bytes -> text) (decode_pk : text -> outcome kerr bytes) (encode_pk : bytes -> text)
+         (utf8_decode : bytes -> option text) (utf8_encode : text -> bytes),
+  (forall w o fpk fe, only_output_changes w (eo_outfile o) (cmd_encrypt P pk_ok sk_ok unlock decode_pk utf8_decode w o fpk fe)) /\
+  (forall w o, only_output_changes w (do_outfile o) (cmd_decrypt P pk_ok sk_ok unlock decode_pk encode_pk utf8_decode w o)) /\
+  (forall w o salt, only_output_changes w (po_outfile o) (cmd_pass_encrypt P w o salt)) /\
+  (forall w o, only_output_changes w (po_outfile o) (cmd_pass_decrypt P w o)) /\
+  (forall w o sk salt, only_output_changes w (go_outfile o) (cmd_gen_key P lock encode_pk utf8_decode utf8_encode w o sk salt)).
+Proof. exact commands_change_only_output. Qed.
+Print Assumptions C13_commands_change_only_output.
+
+(* a well-formed tree (every node other than the root sits in a directory; the current directory is a directory) stays
+   well-formed under every command, whatever its outcome: in particular no file ever appears below something that is not
+   a directory *)
+Theorem C13_tree_stays_well_formed :
+  forall (P : prims) (pk_ok sk_ok : text -> bool) (unlock : text -> bytes -> outcome kerr bytes)
+         (lock : bytes -> bytes -> bytes -> text) (decode_pk : text -> outcome kerr bytes) (encode_pk : bytes -> text)
+         (utf8_decode : bytes -> option text) (utf8_encode : text -> bytes),
+  (forall w o fpk fe, fs_wf (fs w) -> fs_wf (new_fs (cmd_encrypt P pk_ok sk_ok unlock decode_pk utf8_decode w o fpk fe))) /\
+  (forall w o, fs_wf (fs w) -> fs_wf (new_fs (cmd_decrypt P pk_ok sk_ok unlock decode_pk encode_pk utf8_decode w o))) /\
+  (forall w o salt, fs_wf (fs w) -> fs_wf (new_fs (cmd_pass_encrypt P w o salt))) /\
+  (forall w o, fs_wf (fs w) -> fs_wf (new_fs (cmd_pass_decrypt P w o))) /\
+  (forall w o sk salt, fs_wf (fs w) -> fs_wf (new_fs (cmd_gen_key P lock encode_pk utf8_decode utf8_encode w o sk salt))).
+Proof. exact commands_keep_wf. Qed.
+Print Assumptions C13_tree_stays_well_formed.
+
+(* (6c) the input path is a directory.  Decryptors: nothing written, nothing changed; when every earlier step passed the
+   status is the read error ("Ciphertext read failed: Is a directory"), exit 1 *)
+Theorem C13_dir_input_decryptors_leave_fs :
+  forall (P : prims) (pk_ok sk_ok : text -> bool) (unlock : text -> bytes -> outcome kerr bytes)
+         (decode_pk : text -> outcome kerr bytes) (encode_pk : bytes -> text) (utf8_decode : bytes -> option text),
+  (forall w o p, do_infile o = Some p -> is_dir (fs w) p ->
+     new_fs (cmd_decrypt P pk_ok sk_ok unlock decode_pk encode_pk utf8_decode w o) = fs w /\
+     stdout (cmd_decrypt P pk_ok sk_ok unlock decode_pk encode_pk utf8_decode w o) = [] /\
+     is_success (status (cmd_decrypt P pk_ok sk_ok unlock decode_pk encode_pk utf8_decode w o)) = false /\
+     (forall j, decrypt_plan pk_ok sk_ok unlock decode_pk utf8_decode w o = inr j ->
+        status (cmd_decrypt P pk_ok sk_ok unlock decode_pk encode_pk utf8_decode w o) = SDecryptFailed (DIORead OtherErr) /\
+        exit_code (cmd_decrypt P pk_ok sk_ok unlock decode_pk encode_pk utf8_decode w o) = 1)) /\
+  (forall w o p, po_infile o = Some p -> is_dir (fs w) p ->
+     new_fs (cmd_pass_decrypt P w o) = fs w /\ stdout (cmd_pass_decrypt P w o) = [] /\
+     is_success (status (cmd_pass_decrypt P w o)) = false /\
+     (forall j, pass_decrypt_plan w o = inr j ->
+        status (cmd_pass_decrypt P w o) = SDecryptFailed (DIORead OtherErr) /\ exit_code (cmd_pass_decrypt P w o) = 1)).
+Proof. exact dir_input_decryptors_leave_fs. Qed.
+Print Assumptions C13_dir_input_decryptors_leave_fs.
+
+(* password encrypt on a directory, -o F (F can be created at cp), every earlier step passed: exit 1 with the read
+   error ("Plaintext read failed: Is a directory"); F holds EXACTLY the 36-byte header (magic ++ salt) — created if it
+   was absent, its former content replaced if it was present; nothing else changed.  This is what the program does;
+   whether it is in the spirit of the property for this cause is discussed in DESIGN §7.3. *)
+Theorem C13_dir_input_pass_encrypt_leaves_header :
+  forall (P : prims) (w : world) (o : pw_opts) (salt : bytes) (p F : text) (cp : cpath) (j : pw_job),
+  po_infile o = Some p -> is_dir (fs w) p -> po_outfile o = Some F -> fs_create_target (fs w) F = Some cp ->
+  pass_encrypt_plan w o salt = inr j ->
+  status (cmd_pass_encrypt P w o salt) = SEncryptFailed (EIORead OtherErr) /\
+  exit_code (cmd_pass_encrypt P w o salt) = 1 /\ stdout (cmd_pass_encrypt P w o salt) = [] /\
+  fs_get (new_fs (cmd_pass_encrypt P w o salt)) F = Some (x_pass_file_magic ++ salt) /\
+  (forall q, fs_target (fs w) q <> fs_target (fs w) F -> fs_get (new_fs (cmd_pass_encrypt P w o salt)) q = fs_get (fs w) q) /\
+  (forall cq, cq <> cp -> node_at (new_fs (cmd_pass_encrypt P w o salt)) cq = node_at (fs w) cq).
+Proof. exact pass_encrypt_dir_input. Qed.
+Print Assumptions C13_dir_input_pass_encrypt_leaves_header.
+
+(* encrypt on a directory: the same with the 4-byte prologue and the handshake message (132 bytes in the real program) *)
+Theorem C13_dir_input_encrypt_leaves_header :
+  forall (P : prims) (pk_ok sk_ok : text -> bool) (unlock : text -> bytes -> outcome kerr bytes)
+         (decode_pk : text -> outcome kerr bytes) (utf8_decode : bytes -> option text)
+         (w : world) (o : enc_opts) (fpk fe : bytes) (p F : text) (cp : cpath) (j : enc_job) (msg hh : bytes),
+  eo_infile o = Some p -> is_dir (fs w) p -> eo_outfile o = Some F -> fs_create_target (fs w) F = Some cp ->
+  encrypt_plan pk_ok sk_ok unlock decode_pk utf8_decode w o = inr j -> length fpk = 32%nat ->
+  noise_encrypt P fe (ej_s j) (ej_spk j) (ej_r j) None None x_prologue fpk = Ok (msg, hh) ->
+  status (cmd_encrypt P pk_ok sk_ok unlock decode_pk utf8_decode w o fpk fe) = SEncryptFailed (EIORead OtherErr) /\
+  exit_code (cmd_encrypt P pk_ok sk_ok unlock decode_pk utf8_decode w o fpk fe) = 1 /\
+  stdout (cmd_encrypt P pk_ok sk_ok unlock decode_pk utf8_decode w o fpk fe) = [] /\
+  fs_get (new_fs (cmd_encrypt P pk_ok sk_ok unlock decode_pk utf8_decode w o fpk fe)) F = Some (x_prologue ++ msg) /\
+  (forall q, fs_target (fs w) q <> fs_target (fs w) F ->
+     fs_get (new_fs (cmd_encrypt P pk_ok sk_ok unlock decode_pk utf8_decode w o fpk fe)) q = fs_get (fs w) q) /\
+  (forall cq, cq <> cp ->
+     node_at (new_fs (cmd_encrypt P pk_ok sk_ok unlock decode_pk utf8_decode w o fpk fe)) cq = node_at (fs w) cq).
+Proof. exact encrypt_dir_input. Qed.
+Print Assumptions C13_dir_input_encrypt_leaves_header.
+
+(* (6d) POSITIVE: the input path and the -o path (if any) do not denote the same file => the input file is what it was,
+   after every streaming command, whatever its outcome *)
+Theorem C13_input_file_survives :
+  forall (P : prims) (pk_ok sk_ok : text -> bool) (unlock : text -> bytes -> outcome kerr bytes)
+         (decode_pk : text -> outcome kerr bytes) (encode_pk : bytes -> text) (utf8_decode : bytes -> option text),
+  (forall w o fpk fe p, eo_infile o = Some p -> other_file (fs w) (eo_outfile o) p ->
+     fs_get (new_fs (cmd_encrypt P pk_ok sk_ok unlock decode_pk utf8_decode w o fpk fe)) p = fs_get (fs w) p) /\
+  (forall w o p, do_infile o = Some p -> other_file (fs w) (do_outfile o) p ->
+     fs_get (new_fs (cmd_decrypt P pk_ok sk_ok unlock decode_pk encode_pk utf8_decode w o)) p = fs_get (fs w) p) /\
+  (forall w o salt p, po_infile o = Some p -> other_file (fs w) (po_outfile o) p ->
+     fs_get (new_fs (cmd_pass_encrypt P w o salt)) p = fs_get (fs w) p) /\
+  (forall w o p, po_infile o = Some p -> other_file (fs w) (po_outfile o) p ->
+     fs_get (new_fs (cmd_pass_decrypt P w o)) p = fs_get (fs w) p).
+Proof. exact input_file_survives. Qed.
+Print Assumptions C13_input_file_survives.
+
+(* CAVEAT (an observation about the program, not a violation of this property, which speaks of FAILING commands):
+   there is a world and an argv — `password encrypt in -o ./in --env-pass` — whose input and output arguments differ as
+   strings and denote one regular file; the program's same-path test compares the strings and does not fire; the command
+   exits 0 with status SOk; afterwards the input file no longer holds its content; every other file is untouched. *)
+Theorem C13_alias_caveat :
+  exists (w : world) (argv : list text) (infile outfile : text) (before after : bytes),
+    argv = [a_kestrel; a_password; a_encrypt; infile; a_o; outfile; a_env_pass] /\
+    infile <> outfile /\
+    fs_target (fs w) infile = fs_target (fs w) outfile /\
+    fs_get (fs w) infile = Some before /\
+    let r := s_main w argv (zeros 32) [] in
+    m_exit r = 0 /\ m_status r = MCmd SOk /\
+    fs_get (m_fs r) infile = Some after /\ after <> before /\
+    (forall q, fs_target (fs w) q <> fs_target (fs w) infile -> fs_get (m_fs r) q = fs_get (fs w) q).
+Proof. exact alias_destroys_input. Qed.
+Print Assumptions C13_alias_caveat.
